@@ -21,8 +21,8 @@ import urllib.parse
 
 V = os.path.dirname(os.path.dirname(os.path.abspath(__file__)))
 BUILD = os.environ.get("VERIF_BUILD", os.path.join(V, "build"))
-REPLAYS = os.path.join(V, "replays")
-EVID = os.path.join(V, "evidence")
+REPLAYS = os.environ.get("VERIF_REPLAYS", os.path.join(V, "replays"))
+EVID = os.environ.get("VERIF_EVID", os.path.join(V, "evidence"))
 NCPU = int(os.environ.get("VERIF_JOBS", "16"))
 
 # ---------------------------------------------------------------------------------------------
